@@ -6472,7 +6472,9 @@ _dbus_verif_connection_dump (DBusConnection *connection,
   for (i = 0; i < n; i++)
     if (!_dbus_string_append_printf (out, "%u:%d,", serials[i], flags[i]))
       goto out;
-  if (!_dbus_string_append (out, "]"))
+  if (!_dbus_string_append (out, "] tree="))
+    goto out;
+  if (!_dbus_verif_object_tree_dump (connection->objects, out))
     goto out;
   ok = TRUE;
  out:
